@@ -38,6 +38,9 @@ def _stub_opt_library(run):
     return StubOpt("Stub")
 
 
+EXPLORER_OPTS = {"thorough": dict(wall_budget_s=3000.0, max_paths=200000)}
+
+
 def _install_stop_criteria_stubs(ctx):
     """stop_criteria calls numpy.average / allclose on *lists* of arrays, which never reach the SymArray dispatch."""
     if not ctx.symbolic:
@@ -293,8 +296,8 @@ def configs(tier):
                 for constraint in (False, True):
                     if quick and K == 3 and (constraint or not normalized):
                         continue
-                    if K == 4 and (constraint or not normalized):
-                        continue
+                    if K == 4 and (constraint or not normalized or N > 3):
+                        continue  # K=4 with a budget that never fires explodes (27k paths) and adds nothing over K=3
                     out.append(("budget", dict(n=1, K=K, N=N, normalized=normalized, constraint=constraint)))
     for N in (1, 2, 3):
         out.append(("budget", dict(n=2, K=2, N=N, normalized=True, constraint=True)))
